@@ -35,7 +35,7 @@ def inst(sessions, need, **kw):
 QUICK = {
     "core":    inst(["W1", "S"], ["set", "remove", "subscribe", "unsubscribe", "maxitems"]),
     "menu":    inst(["W1", "S"], ["set", "remove", "subscribe", "unsubscribe"], Spellings='{"a,b", "/*/*/a", "a/b", "*/*"}', RemKeys='{"a,b", "*/b", "*/*"}', MaxItemsMenu="{2, 50}"),
-    "churn":   inst(["W1", "W2", "S"], ["connect", "disconnect", "set", "subscribe"], Writers='{"W1", "W2"}', Churn='{"W2"}', DeepPaths='{"a", "a/b"}', Spellings='{"a", "*", "a/*"}',
+    "churn":   inst(["W1", "W2", "S"], ["connect", "disconnect", "set", "subscribe"], Writers='{"W1", "W2"}', Churn='{"W2"}', DeepWriters='{"W2"}', DeepPaths='{"a", "a/b"}', Spellings='{"a", "*", "a/*"}',
                     RemKeys='{"a", "*"}', MaxItemsMenu="{1, 50}"),
     "multi":   inst(["W1", "S"], ["multi", "subscribe2"], DeepPaths='{"a", "a/b"}', Spellings='{"a", "*"}', RemKeys='{"a", "*"}', MultiOps="TRUE", MultiSub="TRUE"),
     "quiet":   inst(["W1", "S"], ["quiet-set", "quiet-remove", "quiet-subscribe"], DeepPaths='{"a", "a/b"}', Spellings='{"a", "*"}', RemKeys='{"a"}', MaxItemsMenu="{1, 50}", Quiet="TRUE"),
@@ -49,16 +49,16 @@ THOROUGH = {
     "churn2":  inst(["W1", "W2", "S"], ["connect", "disconnect"], Writers='{"W1", "W2"}', Churn='{"W2", "S"}', DeepWriters='{"W1", "W2"}', DeepPaths='{"a", "a/b"}',
                     Spellings='{"a", "*", "a/*", "*/b"}', RemKeys='{"a", "*", "a/*"}', MaxItemsMenu="{1, 2, 50}"),
     "multi2":  inst(["W1", "S"], ["multi", "subscribe2"], Spellings='{"a", "*", "a/*"}', RemKeys='{"a", "*", "a/*"}', MultiOps="TRUE", MultiSub="TRUE", Filters="{0, 1, 2}"),
-    "quiet2":  inst(["W1", "S"], ["quiet-set", "quiet-remove", "quiet-subscribe"], Spellings='{"a", "*", "a/*"}', Quiet="TRUE"),
+    "quiet2":  inst(["W1", "S"], ["quiet-set", "quiet-remove", "quiet-subscribe"], DeepPaths='{"a", "a/b"}', Spellings='{"a", "*", "a/*"}', Quiet="TRUE", MaxItemsMenu="{2, 50}"),
     "subs3":   inst(["W1", "S"], ["subscribe", "unsubscribe"], DeepPaths='{"a", "a/b"}', Spellings='{"a", "*", "a/*", "*/b", "a,b"}', MaxSubs=3),
     "depth3":  inst(["W1", "S"], ["set", "remove"], DeepPaths='{"a", "a/b", "a/b/a"}', Spellings='{"a", "a/*", "/*/*/*"}', RemKeys='{"a", "a/*", "*/*"}', MaxItemsMenu="{1, 2, 50}"),
 }
 # each named deviation must break the invariant named (the invariants are not vacuous; F27 is the open known finding as modelled)
 REACH = [("F3", {"Deviations": '{"F3"}'}, ["Converged"]), ("noflush", {"Deviations": '{"noflush"}', "MultiOps": "TRUE"}, ["NoSetThenRemove"]),
-         ("noflushC", {"Deviations": '{"noflush"}', "MultiOps": "TRUE"}, ["Converged"]), ("nofixup", {"Deviations": '{"nofixup"}'}, ["Converged"]),
+         ("nofixup", {"Deviations": '{"nofixup"}'}, ["Converged"]),
          ("F27", {"Deviations": '{"F27"}', "Spellings": '{"a", "*", "/*/*/a"}'}, ["RefsExact"]), ("F27e", {"Deviations": '{"F27"}', "Spellings": '{"a", "*", "/*/*/a"}'}, ["EntriesExact"]),
-         ("F27c", {"Deviations": '{"F27"}', "Spellings": '{"a", "*", "/*/*/a"}'}, ["Converged"]),
          ("F34", {"Deviations": '{"F34"}', "MultiSub": "TRUE"}, ["Converged"]),
+         ("norecurse", {"Deviations": '{"norecurse"}'}, ["TreeStepsAsDocumented"]), ("norecurseS", {"Deviations": '{"norecurse"}'}, ["TreeShape"]),
          ("FilteredOut", {}, ["Reach_FilteredOut"]), ("TwoSubsOneNode", {}, ["Reach_TwoSubsOneNode"]), ("Unclaimed", {"Quiet": "TRUE"}, ["Reach_Unclaimed"])]
 
 
